@@ -21,7 +21,7 @@ ENTRIES = {
     "a.rs.tmp": "file", "a.rs~": "file", "é.rs.tmp": "symlink->outside/o.rs", "sp ace.rs.tmp": "dirsymlink->outside",
 }
 EXT_LISTS = {"omitted": None, "[rs]": ["rs"], "[rs,rsx]": ["rs", "rsx"], "[RS]": ["RS"], "[txt]": ["txt"]}
-SRC_FORMS = ["./src", "src", "ABS"]
+SRC_FORMS = ["./src", "src", "ABS", "./src/", "src/../src", "ABS/"]
 CFG_FORMS = ["relative", "absolute"]
 CWDS = ["config-dir", "parent", "unrelated"]
 
@@ -72,7 +72,7 @@ def _job(args):
             else:
                 with open(p, "w") as f:
                     f.write(STMT)
-        sd = src if sf == "ABS" else sf
+        sd = src if sf == "ABS" else (src + "/" if sf == "ABS/" else sf)
         with open(os.path.join(proj, "Breadlog.yaml"), "w") as f:
             f.write(cli.config_yaml(sd, extensions=EXT_LISTS[en], macros=[("log", "info")]))
         cwd = {"config-dir": proj, "parent": ws, "unrelated": other}[cw]
@@ -158,10 +158,10 @@ def run(tier, v):
                 if tmp_left:
                     bad.append("temp-file-left")
                 for b in sorted(set(bad)):
-                    v.violation("%s:src=%s:cfg=%s:cwd=%s" % (b, "abs" if sf == "ABS" else "rel", cf, cw) if "scope" not in b else "%s:ext=%s" % (b, en),
+                    v.violation("%s:src=%s:cfg=%s:cwd=%s" % (b, "abs" if sf.startswith("ABS") else "rel", cf, cw) if "scope" not in b else "%s:ext=%s" % (b, en),
                                 {"entries": list(subset), "extensions": en, "source_dir": sf, "config_path": cf, "cwd": cw, "mode": "check" if check else "edit",
                                  "exit": ex, "expected_in_scope": want, "changed": changed, "reported": reported, "stdout": out.decode("utf-8", "replace")})
-    v.subspace("subsets of 28 directory entries (size <= %d + the full set) x extensions{omitted,[rs],[rs,rsx],[RS],[txt]} x source_dir{./src,src,absolute} x "
+    v.subspace("subsets of 28 directory entries (size <= %d + the full set) x extensions{omitted,[rs],[rs,rsx],[RS],[txt]} x source_dir{./src,src,absolute,./src/,src/../src,absolute/} x "
                "config path{relative,absolute} x cwd{config dir,parent,unrelated} x mode%s" % (3 if tier == "thorough" else 2,
                "" if tier == "thorough" else " (quick: every 6th (subset,configuration) pair, the full set with every configuration)"),
                len(alljobs), exhaustive=(tier == "thorough"))
